@@ -40,7 +40,10 @@ RULE = ("cases = (operation in read/write/fill/link read/link write/struct field
         "chips, some preceded by a software-version query to an application core that reports another buffer size, "
         "some with the struct definitions replaced mid-session (what boot() does) followed by accesses to fields "
         "touched before the swap, some issued alternately by two controllers on the same machine; write payloads are "
-        "bytes, bytearray or memoryview")
+        "bytes, bytearray or memoryview; plus absolute-size cases = every operation with a length of 1-3 x 2**k +- a few "
+        "bytes for k in {8,10,12,15,16,17}, aligned and ragged (whatever the buffer size: block sizes, counters or caches "
+        "inside an implementation show only there); plus transfers of more commands than the (shrunk) sequence space with "
+        "1-3 (often neighbouring) replies arriving late but before their timeout, i.e. still outstanding at the wrap")
 
 BUFS = [4, 8, 12, 16, 64, 128, 256, 256, 256, 260, 384, 508, 512, 5, 6, 7, 66, 130, 250, 255]
 
@@ -112,6 +115,37 @@ def gen_case(rng, struct_fields):
     n_cmds = (ln // max(buf & ~3, 1) + 3) * 5
     c["script"] = gen_script(rng, n_cmds, 4)
     return c
+
+
+def gen_threshold_cases(rng, rounds):
+    """transfers whose length sits around absolute sizes (powers of two and small multiples of them, far more
+    than one buffer) whatever the buffer size: block sizes, counters and caches that an implementation might
+    introduce show at such sizes only.  Every operation, aligned and ragged, no network faults."""
+    out = []
+    for _ in range(rounds):
+        for op in ("read", "write", "fill", "link_read", "link_write"):
+            for k in (8, 10, 12, 15, 16, 17):
+                for ragged in (False, True):
+                    m = rng.choice([1, 1, 2, 3]) if k < 17 else 1
+                    ln = m * (1 << k) + (rng.choice([-7, -4, -3, -1, 1, 2, 4, 5, 10]) if rng.random() < 0.8 else 0)
+                    buf = rng.choice([256, 256, 255, 128, 512, 300]) if k >= 12 else rng.choice(BUFS)
+                    base = rng.choice([0x60000000, 0x70000000, 0x00400000]) + 4 * rng.randrange(1000)
+                    c = {"op": op, "buf": buf, "window": rng.choice([1, 2, 3, 8]), "x": rng.randrange(2),
+                         "y": rng.randrange(2), "p": rng.randrange(18), "addr": base, "len": ln, "timeout": 4,
+                         "script": {}, "threshold": k}
+                    if op in ("link_read", "link_write"):
+                        c["link"] = rng.randrange(6)
+                        c["len"] = ln = ln // 4 * 4
+                    elif ragged:
+                        c["addr"] = base + rng.randrange(1, 4)
+                    else:
+                        c["len"] = ln = (ln // 4 * 4) if op == "fill" else ln
+                    if op in ("write", "link_write"):
+                        c["data"] = [rng.randrange(256) for _ in range(ln)]
+                    if op == "fill":
+                        c["fill"] = rng.randrange(256) if (c["addr"] % 4 or ln % 4 or rng.random() < 0.5) else rng.randrange(1 << 32)
+                    out.append(c)
+    return out
 
 
 def struct_text(repo, variant=0):
@@ -460,6 +494,12 @@ def run(ctx):
     cases = [gen_case(ctx.rng, {k: v["fields"] for k, v in table.items()}) for _ in range(n)]
     for i in range(0, len(cases), 2000):
         eval_cases(ctx, cases[i:i + 2000], table)
+    # absolute sizes (2**8 .. 2**17 and small multiples, +- a few bytes) for every operation
+    th = gen_threshold_cases(ctx.rng, ctx.scale(1, 6) * (3 if ctx.extended else 1))
+    for c in th:
+        ctx.tag("threshold_2^%d_%s" % (c["threshold"], c["op"]))
+    for i in range(0, len(th), 20):
+        eval_cases(ctx, th[i:i + 20], table)
     # sessions: several operations through ONE controller (state kept by the controller between
     # operations - cached addresses, buffer sizes, sequence numbers - must not leak from one chip or
     # operation into the next); no network faults here, fresh chips each step
@@ -518,6 +558,8 @@ def run(ctx):
     from harness import c06
     ctx.rw_decides = True
     rw = [c06.gen_rw_case(ctx.rng) for _ in range(ctx.scale(200, 4000) * (4 if ctx.extended else 1))]
+    # transfers of more commands than the (shrunk) sequence space with stragglers at the wrap
+    rw += [c06.gen_rw_wrap_case(ctx.rng) for _ in range(ctx.scale(100, 2000) * (4 if ctx.extended else 1))]
     for i in range(0, len(rw), 500):
         c06.eval_rw_cases(ctx, rw[i:i + 500])
 
